@@ -118,11 +118,11 @@ end Tie
 
 /-- **The hand-written model of `curateFailedPoints` is the translated Go function**: for every
 sort function, every request `all` and success list `succ` of uuids (16 bytes each; the sort returns
-uuids), the definition generated from `cluster/actions.go` returns, read through `natBE`, what
+uuids), the failed points the definition generated from `cluster/actions.go` returns are, read through `natBE`, what
 `curateWith` returns on the numbers of the ids, with the same message. -/
 theorem C17_tie (sortFunc : {α : Type} → List α → (α → α → Int) → List α) (all succ : List Bytes) (complete : Bool)
     (hall : ∀ id ∈ all, id.length = 16) (hsorted : ∀ id ∈ sortFunc succ cmpB, id.length = 16) :
-    (Gen.Curate.curateFailedPoints sortFunc all succ complete).map (fun fp => (natBE fp.Id, fp.Err)) =
+    (Gen.Curate.curateFailedPoints sortFunc all succ complete).1.map (fun fp => (natBE fp.Id, fp.Err)) =
       (curateWith (fun _ => (sortFunc succ cmpB).map natBE) (all.map natBE) (succ.map natBE) complete).map
         (fun e => (e.1, msgText e.2)) := by
   unfold Gen.Curate.curateFailedPoints curateWith
@@ -153,10 +153,15 @@ theorem C17_tie (sortFunc : {α : Type} → List α → (α → α → Int) → 
     · have hf' : (binarySearch (sorted.map natBE) (natBE id)).2 = false := by simpa using hf
       simp only [hf', Bool.not_false, if_true, Bool.false_eq_true, if_false, List.map_cons, ih']
 
+/-- the second component: `slices.SortFunc` sorts the caller's `successIds` in place, so the
+translated function returns that slice too — it is whatever the sort made of it -/
+theorem C17_tie_sorted (sortFunc : {α : Type} → List α → (α → α → Int) → List α) (all succ : List Bytes) (complete : Bool) :
+    (Gen.Curate.curateFailedPoints sortFunc all succ complete).2 = sortFunc succ cmpB := rfl
+
 /-- non-vacuity: three 16-byte ids, the middle one succeeded; insertion sort as `sortFunc` -/
 example :
     let id (b : Nat) : Bytes := List.replicate 15 0 ++ [BitVec.ofNat 8 b]
-    (Gen.Curate.curateFailedPoints (fun l cmp => l.foldr (insertBy (fun a b => decide (cmp a b ≤ 0))) []) [id 3, id 1, id 2] [id 2, id 1] true).map
+    (Gen.Curate.curateFailedPoints (fun l cmp => l.foldr (insertBy (fun a b => decide (cmp a b ≤ 0))) []) [id 3, id 1, id 2] [id 2, id 1] true).1.map
       (fun fp => (natBE fp.Id, fp.Err)) = [(3, "not found")] := by decide
 
 end Sema.C17
